@@ -123,8 +123,20 @@ func (fs *FS) mountPoint(path string) (_ hackpadfs.FS, mountPoint, subPath strin
 
 // Open implements hackpadfs.FS
 func (fs *FS) Open(name string) (hackpadfs.File, error) {
-	mountFS, subPath := fs.Mount(name)
-	return mountFS.Open(subPath)
+	mountFS, mountPoint, subPath := fs.mountPoint(name)
+	file, err := mountFS.Open(subPath)
+	if err, ok := err.(*hackpadfs.PathError); ok {
+		return file, &hackpadfs.PathError{Op: err.Op, Path: joinMountPoint(mountPoint, err.Path), Err: err.Err}
+	}
+	return file, err
+}
+
+// joinMountPoint converts a path inside the file system mounted at 'mountPoint' to a path of this file system
+func joinMountPoint(mountPoint, subPath string) string {
+	if hackpadfs.ValidPath(subPath) {
+		return path.Join(mountPoint, subPath)
+	}
+	return subPath
 }
 
 // Point represents a mount point, including any relevant metadata
@@ -145,45 +157,58 @@ func (fs *FS) MountPoints() []Point {
 
 // Rename implements hackpadfs.RenameFS
 func (fs *FS) Rename(oldname, newname string) error {
+	linkErr := func(err error) error {
+		switch e := err.(type) {
+		case nil:
+			return nil
+		case *hackpadfs.PathError:
+			err = e.Err
+		case *hackpadfs.LinkError:
+			err = e.Err
+		}
+		return &hackpadfs.LinkError{Op: "rename", Old: oldname, New: newname, Err: err}
+	}
 	oldMount, oldPoint, oldSubPath := fs.mountPoint(oldname)
 	newMount, newPoint, newSubPath := fs.mountPoint(newname)
+	if oldname != newname && oldPoint == newPoint {
+		return linkErr(hackpadfs.Rename(oldMount, oldSubPath, newSubPath))
+	}
 	oldInfo, err := hackpadfs.Stat(oldMount, oldSubPath)
 	if err != nil {
-		return &hackpadfs.LinkError{Op: "rename", Old: oldname, New: newname, Err: err}
+		return linkErr(err)
 	}
 	if oldname == newname {
 		if !oldInfo.IsDir() {
 			return nil
 		}
-		return &hackpadfs.LinkError{Op: "rename", Old: oldname, New: newname, Err: hackpadfs.ErrExist}
-	}
-
-	if oldPoint == newPoint {
-		return hackpadfs.Rename(oldMount, oldSubPath, newSubPath)
+		return linkErr(hackpadfs.ErrExist)
 	}
 	if oldInfo.IsDir() {
 		// TODO support renaming directories
-		return &hackpadfs.LinkError{Op: "rename", Old: oldname, New: newname, Err: hackpadfs.ErrNotImplemented}
+		return linkErr(hackpadfs.ErrNotImplemented)
 	}
 
 	oldFile, err := oldMount.Open(oldSubPath)
 	if err != nil {
-		return err
+		return linkErr(err)
 	}
 	defer func() { _ = oldFile.Close() }()
 	newFile, err := hackpadfs.OpenFile(newMount, newSubPath, hackpadfs.FlagWriteOnly|hackpadfs.FlagCreate|hackpadfs.FlagTruncate, oldInfo.Mode())
 	if err != nil {
-		return err
+		return linkErr(err)
 	}
 	newFileWriter, ok := newFile.(io.Writer)
 	if !ok {
-		return &hackpadfs.LinkError{Op: "rename", Old: oldname, New: newname, Err: hackpadfs.ErrPermission}
+		_ = newFile.Close()
+		return linkErr(hackpadfs.ErrPermission)
 	}
-	defer func() { _ = newFile.Close() }()
 	_, err = io.Copy(newFileWriter, oldFile)
+	if closeErr := newFile.Close(); err == nil {
+		err = closeErr
+	}
 	if err != nil {
 		_ = hackpadfs.Remove(newMount, newSubPath)
-		return err
+		return linkErr(err)
 	}
-	return hackpadfs.Remove(oldMount, oldSubPath)
+	return linkErr(hackpadfs.Remove(oldMount, oldSubPath))
 }
